@@ -9,6 +9,7 @@ import (
 	"os"
 	"os/exec"
 	"reflect"
+	"runtime/debug"
 	"sort"
 	"strings"
 	"sync"
@@ -79,17 +80,35 @@ func cycleOpen() bool {
 
 var predefinedIDs = []string{"Normal", "Heading1", "Heading2", "Heading9", "Title", "Subtitle", "Quote", "ListParagraph", "CodeBlock", "Emphasis", "Strong", "CodeChar", "a1", "ab", "12", "13"}
 
+// eighths draws true with probability k/8 (rapid's integer ranges are biased towards small values, SampledFrom over a
+// short slice is close to uniform); false first so that shrinking removes.
+func eighths(t *rapid.T, label string, k int) bool {
+	return rapid.SampledFrom(coins[k]).Draw(t, label)
+}
+
+var coins = func() [9][]bool {
+	var c [9][]bool
+	for k := range c {
+		c[k] = make([]bool, 8)
+		for i := 8 - k; i < 8; i++ {
+			c[k][i] = true
+		}
+	}
+	return c
+}()
+
 func genCase(t *rapid.T) Case {
 	cycles := !cycleOpen()
-	c := Case{Predefined: rapid.IntRange(0, 2).Draw(t, "predefined") == 0}
-	n := rapid.IntRange(1, 10).Draw(t, "n")
-	modes := []string{"chain", "tree", "tree", "mixed", "mixed"}
-	if cycles {
-		modes = append(modes, "free", "free", "ring")
+	c := Case{Predefined: eighths(t, "predefined", 3)}
+	n := rapid.SampledFrom([]int{1, 2, 3, 4, 5, 6, 7, 8, 9, 10, 2, 3, 4, 10}).Draw(t, "n")
+	mode := rapid.SampledFrom([]string{"chain", "tree", "tree", "mixed", "mixed", "free", "free", "ring"}).Draw(t, "mode")
+	if !cycles && (mode == "free" || mode == "ring") {
+		// the cyclic shapes are kept out of the main run while the stack-overflow finding is open (counted in Run)
+		c.Excluded = mode
+		mode = map[string]string{"free": "mixed", "ring": "chain"}[mode]
 	}
-	mode := rapid.SampledFrom(modes).Draw(t, "mode")
-	density := rapid.SampledFrom([]int{8, 20, 45, 85}).Draw(t, "density")
-	fancy := rapid.IntRange(0, 4).Draw(t, "fancy") == 0
+	density := rapid.SampledFrom([]int{1, 2, 4, 7}).Draw(t, "density") // eighths
+	fancy := eighths(t, "fancy", 2)
 	ids := make([]string, n)
 	for i := range ids {
 		ids[i] = fmt.Sprintf("S%d", i)
@@ -107,7 +126,7 @@ func genCase(t *rapid.T) Case {
 		kind := "lower"
 		switch mode {
 		case "chain":
-			if rapid.IntRange(0, 9).Draw(t, "chainbreak") == 0 {
+			if eighths(t, "chainbreak", 1) {
 				kind = rapid.SampledFrom([]string{"none", "missing", "predef"}).Draw(t, "kind")
 			} else {
 				kind = "prev"
@@ -128,14 +147,14 @@ func genCase(t *rapid.T) Case {
 			}
 		case "lower":
 			if i > 0 {
-				d.BasedOn = ids[rapid.IntRange(0, i-1).Draw(t, "parent")]
+				d.BasedOn = rapid.SampledFrom(ids[:i]).Draw(t, "parent")
 			}
 		case "zero":
 			if i > 0 {
 				d.BasedOn = ids[0]
 			}
 		case "any":
-			d.BasedOn = ids[rapid.IntRange(0, n-1).Draw(t, "parent")]
+			d.BasedOn = rapid.SampledFrom(ids).Draw(t, "parent")
 		case "self":
 			d.BasedOn = ids[i]
 		case "next":
@@ -151,12 +170,12 @@ func genCase(t *rapid.T) Case {
 			pool = QuickElems
 		}
 		for _, e := range pool {
-			if rapid.IntRange(0, 99).Draw(t, e) < density {
+			if eighths(t, e, density) {
 				d.Elems = append(d.Elems, e)
 			}
 		}
-		d.EmptyP = rapid.IntRange(0, 5).Draw(t, "emptyP") == 0
-		d.EmptyR = rapid.IntRange(0, 5).Draw(t, "emptyR") == 0
+		d.EmptyP = eighths(t, "emptyP", 1)
+		d.EmptyR = eighths(t, "emptyR", 1)
 		defs[i] = d
 	}
 	// registration order is independent of the graph (parents may be registered after their children)
@@ -168,7 +187,7 @@ func genCase(t *rapid.T) Case {
 	for _, d := range defs {
 		c.Queries = append(c.Queries, d.ID)
 	}
-	extra := rapid.IntRange(0, 3).Draw(t, "extraq")
+	extra := rapid.SampledFrom([]int{0, 1, 2, 3}).Draw(t, "extraq")
 	for k := 0; k < extra; k++ {
 		if rapid.Bool().Draw(t, "qkind") {
 			c.Queries = append(c.Queries, rapid.SampledFrom(predefinedIDs).Draw(t, "qpre"))
@@ -210,8 +229,10 @@ func setup(c Case) (sm *style.StyleManager, reg registry, err error) {
 		}
 	}
 	reg = registry{}
-	for _, s := range sm.GetAllStyles() {
-		reg[s.StyleID] = snapshotStyle(s)
+	if c.Predefined {
+		for id, m := range predefinedModel() {
+			reg[id] = m
+		}
 	}
 	api := style.NewQuickStyleAPI(sm)
 	for _, d := range c.Styles {
@@ -233,6 +254,23 @@ func setup(c Case) (sm *style.StyleManager, reg registry, err error) {
 		}
 	}
 	return sm, reg, nil
+}
+
+var (
+	preOnce  sync.Once
+	preModel registry
+)
+
+// predefinedModel: the definitions of the predefined registry, read once from a fresh manager (NewStyleManager is
+// deterministic; the entries are never written to afterwards).
+func predefinedModel() registry {
+	preOnce.Do(func() {
+		preModel = registry{}
+		for _, s := range style.NewStyleManager().GetAllStyles() {
+			preModel[s.StyleID] = snapshotStyle(s)
+		}
+	})
+	return preModel
 }
 
 func snapshotAll(sm *style.StyleManager) map[string]string {
@@ -291,10 +329,32 @@ func run(c Case) *kit.Result {
 		res.Fail("C14.V0.setup", "%v", err)
 		return res
 	}
-	if os.Getenv(childEnv) == "" && cycleOpen() && reachesCycle(c, reg) {
-		return runInChild(c)
+	lastCase, lastReg = c, reg
+	if c.Excluded != "" {
+		res.Count("excluded:"+kfCycle, 1)
 	}
-	return runHere(c, sm, reg)
+	if os.Getenv(childEnv) == "" && cycleOpen() && reachesCycle(c, reg) {
+		return runInChild(c, res)
+	}
+	return runHere(c, sm, reg, res)
+}
+
+var (
+	lastCase Case
+	lastReg  registry
+)
+
+// modelOf gives the reference registry of a case (memoised for the case that ran last: triggers ask right after Run).
+func modelOf(c Case) registry {
+	if lastReg != nil && reflect.DeepEqual(c, lastCase) {
+		return lastReg
+	}
+	var reg registry
+	var err error
+	if p, _ := kit.Try(func() { _, reg, err = setup(c) }); p != nil || err != nil {
+		return nil
+	}
+	return reg
 }
 
 func reachesCycle(c Case, reg registry) bool {
@@ -306,7 +366,7 @@ func reachesCycle(c Case, reg registry) bool {
 	return false
 }
 
-func runInChild(c Case) *kit.Result {
+func runInChild(c Case, r0 *kit.Result) *kit.Result {
 	js, _ := json.Marshal(c)
 	ctx, cancel := context.WithTimeout(context.Background(), 60*time.Second)
 	defer cancel()
@@ -323,13 +383,17 @@ func runInChild(c Case) *kit.Result {
 			if e := json.Unmarshal(stdout.Bytes()[i+len(childMarker):], &res); e == nil {
 				res.Label("cycle:subprocess")
 				res.Count("subprocess_runs", 1)
+				for k, v := range r0.Counts {
+					res.Count(k, v)
+				}
 				return &res
 			}
 		}
 		err = fmt.Errorf("child printed no result")
 	}
 	// the child died or hung: that is the violated clause
-	r := &kit.Result{Nontrivial: true, Shape: "cycle-death"}
+	r := r0
+	r.Nontrivial, r.Shape = true, "cycle-death"
 	r.Label("cycle:subprocess")
 	r.Label("has-cycle")
 	r.Count("subprocess_runs", 1)
@@ -367,6 +431,9 @@ func (l *limitWriter) Write(p []byte) (int, error) {
 const childMarker = "\nC14-CHILD-RESULT:"
 
 func childMain() {
+	// unbounded recursion exhausts any stack; a smaller limit than the default 1 GB only makes the verdict arrive sooner
+	// (a terminating resolution of a chain of a dozen styles needs a few KB)
+	debug.SetMaxStack(128 << 20)
 	js, _ := io.ReadAll(os.Stdin)
 	var c Case
 	if err := json.Unmarshal(js, &c); err != nil {
@@ -379,8 +446,7 @@ func childMain() {
 	os.Exit(0)
 }
 
-func runHere(c Case, sm *style.StyleManager, reg registry) *kit.Result {
-	res := &kit.Result{}
+func runHere(c Case, sm *style.StyleManager, reg registry, res *kit.Result) *kit.Result {
 	api := style.NewQuickStyleAPI(sm)
 	before := snapshotAll(sm)
 
@@ -666,18 +732,21 @@ func checkClone(res *kit.Result, sm *style.StyleManager, before map[string]strin
 	}
 	// no pointer target reachable from both
 	res.Eval("C14.V4.noshare")
-	src := map[uintptr]string{}
-	for _, s := range sm.GetAllStyles() {
-		pointers(reflect.ValueOf(s), src, s.StyleID)
-	}
-	dst := map[uintptr]string{}
-	for _, s := range cl.GetAllStyles() {
-		pointers(reflect.ValueOf(s), dst, s.StyleID)
-	}
 	var shared []string
-	for p, where := range dst {
-		if w2, ok := src[p]; ok {
-			shared = append(shared, where+" == source "+w2)
+	for pass := 0; pass < 2 && (pass == 0 || len(shared) > 0); pass++ {
+		shared = nil
+		src := map[uintptr]string{}
+		for _, s := range sm.GetAllStyles() {
+			pointers(reflect.ValueOf(s), src, s.StyleID, pass == 1)
+		}
+		dst := map[uintptr]string{}
+		for _, s := range cl.GetAllStyles() {
+			pointers(reflect.ValueOf(s), dst, s.StyleID, pass == 1)
+		}
+		for p, where := range dst {
+			if w2, ok := src[p]; ok {
+				shared = append(shared, where+" == source "+w2)
+			}
 		}
 	}
 	sort.Strings(shared)
